@@ -307,3 +307,84 @@ Definition mon_C17 (c : syscase) : N :=
   | 0 => match with_cfg (fun cfg ops xs => once_from cons_par cons_par cfg [] 0 ops xs) c with 0 => 0 | k => 2000 + k end
   | k => 1000 + k
   end.
+
+(* ================================================================================== *)
+(* C05: an observer's view of which access tokens are live *)
+Record c05st := mkC05 {
+  m_gmap : list (id * N);                 (* token / refresh-token handle -> grant key *)
+  m_cur : list (N * (id * Z));            (* grant key -> (current access token, its expiry) *)
+  m_deadk : list N;                       (* grants revoked by their owner while live *)
+  m_deadt : list id                       (* access tokens superseded by a refresh *)
+}.
+Fixpoint lookupN {A} (k : N) (l : list (N * A)) : option A :=
+  match l with [] => None | (k', v) :: r => if N.eqb k k' then Some v else lookupN k r end.
+Definition c05_new (cfg : config) (st : c05st) (key : N) (now : Z) (at_ rt : id) : c05st :=
+  if is_nil at_ then st else
+  mkC05 ((at_, key) :: (if is_nil rt then m_gmap st else (rt, key) :: m_gmap st))
+        ((key, (at_, (now + cf_token_lifetime cfg)%Z)) :: m_cur st) (m_deadk st) (m_deadt st).
+Definition c05_dead (st : c05st) (now : Z) (h : id) : bool :=
+  match lookup h (m_gmap st) with
+  | Some key =>
+      orb (memN key (m_deadk st)) (orb (memN h (m_deadt st))
+        (match lookupN key (m_cur st) with Some (_, e) => Z.leb (e + 3) now | None => false end))
+  | None => false
+  end.
+Definition c05_revoked (st : c05st) (h : id) : bool :=
+  match lookup h (m_gmap st) with Some key => memN key (m_deadk st) | None => false end.
+Definition ptok_is_exact (p : ptok) : bool := match p with PExact _ => true | _ => false end.
+Definition c05_intro (st : c05st) (now : Z) (p : ptok) (i : intro) : N :=
+  if negb (in_active i) then 0
+  else if negb (ptok_is_exact p) then 1
+  else if in_refresh i then (if c05_revoked st (ptok_exact p) then 3 else 0)
+  else if c05_dead st now (ptok_exact p) then 2 else 0.
+
+Fixpoint c05_from (cfg : config) (st : c05st) (k : nat) (now : Z) (ops : list op) (xs : list obs) : N :=
+  match ops, xs with
+  | o :: ops', x :: xs' =>
+      let key := N.of_nat (S k) in
+      let bad : N :=
+        match o, x with
+        | OpIntrospect r, Out (OIntro i) => c05_intro st now (q_tok r) i
+        | OpTokenInfoReq r, Out (OIntro i) => c05_intro st now (u_tok r) i
+        | OpTokenInfo p, Out (OIntro i) => c05_intro st now p i
+        | OpUserInfo r, Out (OUserInfo _) =>
+            if negb (ptok_is_exact (u_tok r)) then 1
+            else if c05_dead st now (ptok_exact (u_tok r)) then 2 else 0
+        | OpToken GRefreshToken r, Out (OTokens _) => if c05_revoked st (t_refresh r) then 3 else 0
+        | _, _ => 0
+        end in
+      match bad with
+      | 0 =>
+        let st' :=
+          match o, x with
+          | OpToken GRefreshToken r, Out (OTokens t) =>
+              match lookup (t_refresh r) (m_gmap st) with
+              | Some gk =>
+                  mkC05 ((tr_at t, gk) :: (if is_nil (tr_rt t) then m_gmap st else (tr_rt t, gk) :: m_gmap st))
+                        ((gk, (tr_at t, (now + cf_token_lifetime cfg)%Z)) :: m_cur st) (m_deadk st)
+                        (match lookupN gk (m_cur st) with Some (old, _) => old :: m_deadt st | None => m_deadt st end)
+              | None => c05_new cfg st key now (tr_at t) (tr_rt t)
+              end
+          | OpToken _ r, Out (OTokens t) => c05_new cfg st key now (tr_at t) (tr_rt t)
+          | OpAuthorize _, Out (ONav _ _ nv) | OpCallback _, Out (ONav _ _ nv) => c05_new cfg st key now (n_at nv) 0
+          | OpNotifyOk _ _, Notified true (nf :: _) => c05_new cfg st key now (nf_at nf) (nf_rt nf)
+          | OpRevoke r, Out OOk =>
+              match q_tok r with
+              | PExact h =>
+                  match lookup h (m_gmap st) with
+                  | Some gk =>
+                      (* only a token that was live when revoked: the current, unexpired access token *)
+                      match lookupN gk (m_cur st) with
+                      | Some (cur, e) => if andb (ideq cur h) (Z.ltb (now + 3) e)
+                                         then mkC05 (m_gmap st) (m_cur st) (gk :: m_deadk st) (m_deadt st) else st
+                      | None => st end
+                  | None => st end
+              | _ => st end
+          | _, _ => st
+          end in
+        c05_from cfg st' (S k) (match o with OpTick d => (now + d)%Z | _ => now end) ops' xs'
+      | c => viol c k
+      end
+  | _, _ => 0
+  end.
+Definition mon_C05 := with_cfg (fun cfg ops xs => c05_from cfg (mkC05 [] [] [] []) 0 0%Z ops xs).
